@@ -14,7 +14,8 @@ ASSUME = ["LineReader caches (lines, foend_to_fobeg, LRU) are transparent: valid
 def oracle(ctx):
     a = text_oracles.oracle_blocksz(ctx, ctx.q(10, 60))
     b = text_oracles.known_gate_witnesses(ctx)
-    return core.merge_oracles([a, b])
+    c = text_oracles.search_from_disagreements(ctx, getattr(ctx, 'corr_results', []))
+    return core.merge_oracles([a, b, c])
 
 
 def check(ctx):
